@@ -248,6 +248,7 @@ func (e *Exec) call(st *State, x *ast.CallExpr) Val {
 					for _, a := range x.Args {
 						e.ev(st, a)
 					}
+					e.lockAcquired(st, fn.Origin().FullName(), x)
 					return e.zeroResults(fn.Type().(*types.Signature))
 				}
 				recv := e.ev(st, f.X)
